@@ -222,7 +222,10 @@ impl Node {
     pub async fn create_block(&mut self, creator: &Key, spec: BlockSpec) -> Result<Block, String> {
         let configs = self.configs.read().await;
         let bc = self.blockchain.read().await;
-        let mut map: ahash::AHashMap<SaitoSignature, Transaction> = Default::default();
+        // a fixed hasher state: Block::create drains this map, so its iteration order is the order of the
+        // transactions in the block - with ahash's per-process random state scenarios would not be reproducible
+        let mut map: ahash::AHashMap<SaitoSignature, Transaction> =
+            ahash::AHashMap::with_hasher(ahash::RandomState::with_seeds(11, 13, 17, 19));
         for mut tx in spec.txs {
             tx.generate(&creator.public, 0, 0);
             map.insert(tx.signature, tx);
